@@ -136,6 +136,9 @@ func genC17(t *rapid.T) c17Case {
 					v = rapid.SampledFrom([]string{"true", "false"}).Draw(t, "bool")
 				default:
 					v = rapid.SampledFrom(c17Strings).Draw(t, "str")
+					if src != "env" && rapid.IntRange(0, 9).Draw(t, "emptystr") == 0 {
+						v = "" // an empty text is a value like any other for the file and the command line
+					}
 					if src == "env" && v == "" {
 						continue
 					}
